@@ -106,3 +106,29 @@ PROPS["C02"] = {
     "min_nontrivial": {"quick": 5000, "thorough": 50000},
     "timeout": {"quick": 900, "thorough": 7200},
 }
+
+PROPS["C18"] = {
+    "level": "exploration",
+    "design_ref": "DESIGN.md §4.18",
+    "technique": "exhaustive enumeration of canonical key-pinning shapes and their conjunctions x literal pool; invariant over the storage call log of an instrumented reference store",
+    "level_text": "Bounded-exhaustive exploration with a call-log oracle: every canonical pinning atom (key =,<,<=,>,>=,^= literal with the "
+                  "literal on either side, IN lists, BETWEEN), every conjunction of two of them, conjunctions with opaque predicates on either "
+                  "side (and sampled triples) over a 6-literal pool are executed to exhaustion (Next until nil / Batch until an empty batch, "
+                  "batch sizes 32 and 3) against the 84-key universe behind an instrumented store; rapid adds random stores and literals drawn "
+                  "from them. The log must show: reads confined to the region of one pinning conjunct plus at most one key beyond its end, "
+                  "Get-only traffic when a conjunct is an equality/IN, and no Get/Next at all for clauses unsatisfiable on their face.",
+    "level_note": "Trusted: instrumented store wrapper (lib/refstore.go). 'Unsatisfiable on its face' is decided syntactically from the "
+                  "property's list: constant false, disjoint key sets, prefixes that do not extend each other, disjoint closed ranges.",
+    "rule": "enumerated shapes x {row, batch 32, batch 3} (each emitted once) + rapid random stores/literals. Non-trivial = the store holds "
+            "keys both below and above the region of the conjunct that covers the reads, or the clause is unsatisfiable on its face; "
+            "distinct = distinct (statement, mode, batch size, store).",
+    "assumptions": COMMON_ASSUMPTIONS + [
+        "reads = arguments of Get and keys returned by Cursor.Next over the whole execution as a caller performs it",
+        "regions are taken closed (key > 'a' may read 'a')",
+    ],
+    "legs": [
+        {"test": "TestC18Shapes", "kind": "enum", "quick": {"shards": 4}, "thorough": {"shards": 16}},
+        {"test": "TestC18Random", "kind": "rapid", "quick": {"checks": 3000, "shards": 2}, "thorough": {"checks": 100000, "shards": 8}},
+    ],
+    "min_nontrivial": {"quick": 5000, "thorough": 50000},
+}
